@@ -742,6 +742,12 @@ class PiecewiseDecider:
             sv = self.solvers.get(s_)
             if sv is None:
                 sv = self.solvers[s_] = Solver(stats=self.stats, timeout_ms=self.timeout_ms, default_box=(-s_, s_))
+            # a witness by plain evaluation first (canonical points scaled into the box): fixed thresholds give one at once
+            sv._ensure_vars(d, True)
+            g = sv.guess(d, Fraction(tau) * s_)
+            if g is not None:
+                self.stats.queries += 1; self.stats.sat += 1
+                return 'sat', g, s_
             v, m = sv.decide(d, Fraction(tau) * s_, with_defs=True, label='%s@%s' % (label, s_))
             if v == 'sat':
                 return v, m, s_
